@@ -534,5 +534,11 @@ def kf_second_rounds_to_60(w):
     return w.get('frac', 0) >= 0.5 and (w.get('second', 0) + 1) % 60 == 0
 
 
+def kf_full_minute_at_large_date(w):
+    """a whole minute late in the calendar: date_part + k/86400 is not representable, the double lies a few 1e-5 s
+    below the minute, which is the situation of C17-second-60 (second 60 instead of carrying)"""
+    return w.get('date_part', 0) >= 1000000 and w.get('second', 1) % 60 == 0 and w.get('second', 0) > 0
+
+
 def kf_blank_start(w):
     return w.get('start') in (0, None)
